@@ -35,6 +35,10 @@ func (server *Server) registerSugarExecutors() {
 			if err != nil {
 				return nil, err
 			}
+			// Only the canonical decimal form counts as an integer, as in Redis: "05", "+5" or "-0" are strings.
+			if rawVal, err := getRet.Bytes(); err != nil || string(rawVal) != strconv.Itoa(retVal) {
+				return nil, errors.New("value is not an integer or out of range")
+			}
 			currVal = retVal
 		}
 		newVal := currVal + val
